@@ -57,6 +57,9 @@ mod lut;
 mod operations;
 pub mod sop;
 mod static_lut;
+#[cfg(feature = "verif-hooks")]
+#[doc(hidden)]
+pub mod verif;
 
 pub use decomposition::DecompositionType;
 pub use lut::Lut;
